@@ -194,6 +194,20 @@ Definition import_split {A} (kof : A -> kind) (sub : A -> list A) (cs : list A) 
     end in
   (prefix, flat_map (fun b => if kind_eqb (kof b) KImportItems then sub b else [b]) items_part).
 
+(* table.rs / func_call.rs: the two table layouts of an argument list *)
+Definition aslist_slice (cs : list tree) : list tree :=
+  if has_paren_t cs then take_until_rparen_t (skip_until_t KLeftParen cs) else [].
+Definition aslist_ok (cs : list tree) : bool :=
+  str_eqb (tsigl cs) (tsigl (aslist_slice cs) ++ tsigl (args_extra cs)) &&
+  forallb (fun c => kind_eqb (kind_of c) KComma || kind_eqb (kind_of c) KSpace || is_comment_node c || is_arg c || sig_empty c)
+          (aslist_slice cs).
+Definition table_named (cs : list tree) : list tree :=
+  filter (fun c => kind_eqb (kind_of c) KNamed) (filter is_arg cs).
+Definition table_pos (cs : list tree) : list tree :=
+  filter (fun c => is_arg c && negb (match kind_of c with KNamed | KSpread => true | _ => false end)) (take_until_rparen_t cs).
+Definition table_eq (cs : list tree) : bool :=
+  str_eqb (tsigl cs) (tsigl (table_named cs) ++ tsigl (table_pos cs) ++ tsigl (args_extra cs)).
+
 Section NodeOk.
   (* per kind: the children a converter does not hand on carry no signature; see SigConv.v for the use of each clause *)
   Definition all_kept (kept : tree -> bool) (cs : list tree) : bool :=
@@ -279,8 +293,12 @@ Section NodeOk.
     | KFuncCall =>
         match find is_expr cs with
         | Some cal =>
-            negb (match (if kind_eqb (kind_of cal) KIdent then Some (text_of cal) else None) with
-                  | Some n => existsb (str_eqb n) TABLE_FUNCS | None => false end) &&
+            (negb (match (if kind_eqb (kind_of cal) KIdent then Some (text_of cal) else None) with
+                   | Some n => existsb (str_eqb n) TABLE_FUNCS | None => false end) ||
+             match find (fun c => kind_eqb (kind_of c) KArgs) (rev cs) with
+             | Some a => aslist_ok (children a) && (table_eq (children a) || existsb is_comment_node (children a))
+             | None => true
+             end) &&
             str_eqb (tsigl cs) (tsig cal ++ match find (fun c => kind_eqb (kind_of c) KArgs) (rev cs) with Some a => tsig a | None => [] end)
         | None => false
         end
